@@ -42,6 +42,15 @@ class CopySuite(Suite):
     rule = ""
 
     def mk(self, src, dst, args, repeat=None):
+        import zlib
+        h = zlib.crc32(repr((args, [e["p"] for e in src])).encode())
+        if h % 16 == 0 and src:
+            # one time stamp outside the range of int64 nanoseconds (after 2262): the copier works on timespecs and has to keep it
+            # (derived from the case itself, so that a case replays as it was)
+            cands = [e for e in src if e["t"] != "hardlink"]
+            if cands:
+                e = cands[(h >> 8) % len(cands)]
+                src = [dict(x, mt=(10413878400_000000007 if (h >> 4) % 2 else 9300000000_999999999)) if x is e else x for x in src]
         return {"op": "copy", "src": src, "dst": dst, "args": args, "repeat": repeat or self.repeat}
 
     def prepare_model(self, ops, impl=None):
